@@ -117,11 +117,14 @@ fn compile_native_asset_for_mint(
     let asset_name = coercion::expr_into_bytes(&ir.asset_name)?;
     let amount = coercion::expr_into_number(&ir.amount)?;
 
-    let amount = if !is_burn {
-        primitives::NonZeroInt::try_from(amount as i64).unwrap()
-    } else {
-        primitives::NonZeroInt::try_from(-amount as i64).unwrap()
-    };
+    let invalid = || Error::CoerceError(format!("{amount}"), "non-zero 64-bit mint amount".to_string());
+
+    let amount = if !is_burn { Some(amount) } else { amount.checked_neg() };
+
+    let amount = amount
+        .and_then(|x| i64::try_from(x).ok())
+        .and_then(|x| primitives::NonZeroInt::try_from(x).ok())
+        .ok_or_else(invalid)?;
 
     let asset = asset!(policy, asset_name.clone(), amount);
 
